@@ -55,14 +55,14 @@ prop("C04", "Only validated requests move data", "exploration", "mgrx",
 
 prop("C05", "Only the counterparty, in its proper role", "exploration", "mgrx",
      "property testing (rapid): datastore snapshot diff and transport call log restricted to pre-existing channel ids after every generated message; single-field mutations of valid restart requests",
-     [hx("TestC05_Mgrx", 1200, 32000), hx("TestC05_MgrxRestart", 1500, 32000)],
+     [hx("TestC05_Mgrx", 1200, 32000), hx("TestC05_MgrxRestart", 1500, 32000), hx("TestC16_Gsx", 800, 8000)],
      ["a refused message may cause transport calls on the non-existing channel id derived from its sender (DESIGN 6.5); 'untouched' is asserted for ids that existed before the message"],
      "generated open-channel sets x senders x message kinds x colliding ids x paths; sampled",
      TRUST)
 
 prop("C10", "Restart resumes the same transfer", "exploration", "mgrx",
      "property testing (rapid): before/after identity diff of the channel record, content of the re-issued request / transport open, validator call order; crash-restart in cleanup statuses",
-     [hx("TestC10_MgrxLocal", 1500, 32000), hx("TestC10_MgrxCleanup", 600, 8000), hx("TestC04_MgrxRestart", 800, 8000), hx("TestC05_MgrxRestart", 800, 8000)],
+     [hx("TestC10_GsxPending", 800, 16000), hx("TestC16_Gsx", 800, 16000), hx("TestC10_MgrxLocal", 1500, 32000), hx("TestC10_MgrxCleanup", 600, 8000), hx("TestC04_MgrxRestart", 800, 8000), hx("TestC05_MgrxRestart", 800, 8000)],
      ["'a rejected restart fails the channel' is applied to the incoming restart request path; a responder whose own validator rejects a locally requested restart must send nothing and return an error (DESIGN 6.3)"],
      "generated roles x progress points x statuses x process restart x validator outcomes; sampled",
      TRUST)
@@ -109,6 +109,14 @@ prop("C15", "Network sends retry boundedly, deliver once; inbound dispatch is fa
      "trusts testing/synctest's virtual clock and the host / stream doubles",
      exhaustive_note="TestC15_SendPatterns enumerates all 2^n fail/succeed patterns for attempt caps 0..6")
 
+prop("C16", "Transport routes each graphsync event to its channel; none after cleanup", "exploration", "gsx",
+     "model-based stateful property testing (rapid): the real graphsync transport over a graphsync double; request-id -> channel ownership model against the call log of a recording events handler",
+     [hx("TestC16_Gsx", 2500, 64000), hx("TestC11_GsxMatrix", 500, 4000), hx("TestC09_Gsx", 500, 4000)],
+     ["the completion of a requester-side graphsync request (its response channels closing) is reported through the channel id the transport remembered even after cleanup; the check tolerates that report and asserts silence for hooks and listeners",
+      "requestor-cancelled notifications are generated for responding-side requests only (where graphsync raises them)"],
+     "generated callback sequences over 2..4 channels with colliding transfer ids and up to 3 requests per channel, cleanup anywhere; sampled",
+     "trusts the graphsync double (hook invocation order as in go-graphsync: outgoing-request hook inside Request, Cancel ends the request's channels)")
+
 prop("C17", "Subscribers see every applied event once, in order", "exploration", "mgrx",
      "stateful property testing (rapid): subscriber call logs compared with the datastore write log (independent DAG-CBOR reader) and with a witness subscriber restricted to fenced subscription windows",
      [hx("TestC17_Mgrx", 1000, 24000)],
@@ -127,7 +135,7 @@ prop("C06", "Durable and prefix-consistent across crashes", "fault_enumeration",
 
 prop("C07", "Transfer accounting counts every block position once", "exploration", "fsmx",
      "model-based property testing (rapid): run-structured block-report sequences with replays, duplicates and reopen against a reference accumulator; arbitrary triples for monotonicity",
-     [hx("TestC07_Fsmx", 1500, 32000), hx("TestC07_FsmxArbitrary", 1000, 16000)],
+     [hx("TestC07_Fsmx", 1500, 32000), hx("TestC07_FsmxArbitrary", 1000, 16000), hx("TestC16_Gsx", 800, 8000)],
      ["equality with the sum over distinct positions is asserted for run-structured input in a transferring status only (DESIGN 6.4)"],
      "generated report sequences against a reference accumulator; sampled, not exhaustive",
      TRUST)
@@ -141,7 +149,7 @@ prop("C08", "Data limits stop the transfer at the limit", "exploration", "fsmx",
 
 prop("C09", "Cleanup exactly once per ending; closing never hangs", "exploration", "fsmx",
      "stateful property testing (rapid) with racing injections: cleanup-call counter per ending against the publication log, settle-without-input watchdog, crash-restart in cleanup statuses",
-     [hx("TestC09_Fsmx", 1000, 16000), hx("TestC09_Mgrx", 1000, 16000)],
+     [hx("TestC09_Fsmx", 1000, 16000), hx("TestC09_Mgrx", 1000, 16000), hx("TestC09_Gsx", 1000, 16000)],
      ["exactly-once is asserted when no event is applied during the cleanup window; with k racing events the bound is 1..1+k (DESIGN 6.1)",
       "bounded liveness: 'settles' / 'returns' use a 20 s watchdog against microsecond latencies"],
      "generated endings from every reachable status with and without racing events; schedules of the race are sampled by the Go scheduler",
@@ -149,7 +157,7 @@ prop("C09", "Cleanup exactly once per ending; closing never hangs", "exploration
 
 prop("C11", "Pause state per party", "exploration", "fsmx",
      "model-based stateful property testing (rapid) against a two-flag reference model updated by applied events only; ignored actions must leave accessors and bytes identical",
-     [hx("TestC11_Fsmx", 2500, 48000), hx("TestC11_Mgrx", 1500, 32000)],
+     [hx("TestC11_Fsmx", 2500, 48000), hx("TestC11_Mgrx", 1500, 32000), hx("TestC11_GsxMatrix", 500, 4000)],
      [],
      "generated interleavings of the four pause/resume actions and limit pauses in every reachable status, both roles; sampled",
      TRUST)
@@ -162,6 +170,7 @@ prop("C19", "Channel state views are total and self-consistent", "exploration", 
      TRUST)
 
 ENGINES = [
+    {"name": "gsx", "path": "harness/hx (gsx_*_test.go), harness/dbl/gs.go", "serves_properties": ["C05", "C07", "C09", "C10", "C11", "C16", "C20"], "kind_free_text": "rapid stateful tests of the real graphsync transport over a fake GraphExchange and a scriptable events handler"},
     {"name": "mon", "path": "harness/vt/mon_test.go", "serves_properties": ["C14"], "kind_free_text": "rapid property tests of channelmonitor in a testing/synctest bubble (go1.26.8)"},
     {"name": "netx", "path": "harness/vt/netx_test.go", "serves_properties": ["C15"], "kind_free_text": "rapid property tests of network.NewFromLibp2pHost over a scripted host double in a testing/synctest bubble (go1.26.8)"},
     {"name": "mig", "path": "harness/hx/mig_test.go", "serves_properties": ["C13"], "kind_free_text": "rapid property tests opening version-2 datastores written by an independent encoder"},
